@@ -225,6 +225,39 @@ def gen_two_alloc_programs():
         yield (f"R13g_inner_value_outer_allocator__{n}", mf, ctl)
 
 
+# route R14: an owned copy of arena B's scope (by_value, guard.scope()) must not be storable in arena A through an
+# exclusive reference to A's scope (as_mut_scope, a claim guard, the scope handed to a closure): A would then
+# allocate from B's chunks, and a reference borrowed from A would outlive B's reset / drop (and both would release
+# the same chunks). (name, declaration of `t: &mut BumpScope` (or a guard that derefs to one) from bump1)
+FOREIGN_TARGETS = [
+    ("as_mut_scope", "let t = bump1.as_mut_scope();", "*t"),
+    ("claim_guard", "let mut t = bump1.claim();", "*t"),
+    ("guard_scope", "let mut g1 = bump1.scope_guard(); let t = g1.scope();", "*t"),
+]
+FOREIGN_SOURCES = [
+    ("by_value", "", "bump2.as_mut_scope().by_value()"),
+    ("try_by_value", "", "bump2.as_mut_scope().try_by_value().unwrap()"),
+    ("guard_scope_by_value", "let mut g2 = bump2.scope_guard();", "g2.scope().by_value()"),
+    ("claim_by_value", "let mut c2 = bump2.claim();", "c2.by_value()"),
+]
+
+
+def gen_foreign_scope_programs():
+    for (tn, tdecl, place) in FOREIGN_TARGETS:
+        for (sn, sdecl, sexpr) in FOREIGN_SOURCES:
+            head = "let mut bump1: Bump = Bump::new();\nlet mut bump2: Bump = Bump::new();\n"
+            mf = head + f"{{ {sdecl} {tdecl} {place} = {sexpr}; }}\nlet x = bump1.alloc_str(\"a\");\ndrop(bump2);\ntouch(&x);"
+            ctl = head + f"{{ {sdecl} {tdecl} let v = {sexpr}; touch(&v); touch(&{place}); }}\nlet x = bump1.alloc_str(\"a\");\ndrop(bump2);\ntouch(&x);"
+            yield (f"R14_foreign_scope_copy__{tn}__{sn}", mf, ctl)
+
+
+def known_findings():
+    try:
+        return [k for k in json.load(open(os.path.join(VERIF, "known_findings.json"))) if k.get("property") == "C04" and k.get("status") == "known"]
+    except Exception:
+        return []
+
+
 def gen_borrow_programs():
     """yield (id, must_fail_body, control_body or None)"""
     for (pn, pexpr, pmut) in PRODUCERS:
@@ -419,7 +452,7 @@ def main(tier, seed, rest):
     pinned = ("__any_stats_from_stats", "__any_chunk_from_chunk", "__any_prev_iter_from_iter", "__any_next_iter_from_iter")
     always = [p for p in progs if p[0].endswith(pinned)]
     progs = [p for p in progs if not p[0].endswith(pinned)]
-    always += list(gen_alias_programs()) + list(gen_two_alloc_programs())
+    always += list(gen_alias_programs()) + list(gen_two_alloc_programs()) + list(gen_foreign_scope_programs())
     total_grammar = len(progs) + len(always)
     rng = random.Random(seed)
     if tier != "thorough":
@@ -587,17 +620,31 @@ def main(tier, seed, rest):
     }
     os.makedirs(os.path.join(VERIF, "evidence"), exist_ok=True)
     json.dump(ev, open(os.path.join(VERIF, "evidence", "C04.json"), "w"), indent=1)
+    # a listed finding is keyed by the exact program id; anything else that is accepted is a violation
+    known = {pid: k for k in known_findings() for pid in k.get("programs", [])}
+    seen_known = {}
+    new_violations = []
     for (pid, path) in violations:
+        if pid in known:
+            seen_known.setdefault(known[pid]["signature"], (known[pid], []))[1].append(pid)
+        else:
+            new_violations.append((pid, path))
+    for sig, (k, pids) in seen_known.items():
+        print(f"KNOWN-FINDING: property=C04 {k.get('what', sig)} [accepted programs: {', '.join(sorted(pids))}]")
+    ev["known_findings_seen"] = {sig: sorted(p) for sig, (k, p) in seen_known.items()}
+    ev["violations"] = len(new_violations)
+    json.dump(ev, open(os.path.join(VERIF, "evidence", "C04.json"), "w"), indent=1)
+    for (pid, path) in new_violations:
         print(f"accepted although it must not compile: {pid}")
         print(f"VIOLATION property=C04 replay={path}")
-    if violations:
+    if new_violations:
         return 1
     if generator_defects:
         sys.stderr.write(f"C04: {len(generator_defects)} generator defect(s) (excluded pairs), e.g. {generator_defects[:5]}\n")
         if len(generator_defects) > 25:
             print("C04: too many generator defects: inconclusive")
             return 2
-    print(f"C04 {tier}: {evaluations} programs ({n_mustfail} must-fail, all rejected; {len(controls)} controls), {time.time() - t0:.1f}s, no violation")
+    print(f"C04 {tier}: {evaluations} programs ({n_mustfail} must-fail, {len(violations)} accepted - all of them listed known findings; {len(controls)} controls), {time.time() - t0:.1f}s, no new violation")
     return 0
 
 
